@@ -1346,7 +1346,10 @@ func (km *KeystoreManager) NextAddresses(dbTransaction db.DBTransaction, checkfu
 		return nil, ErrCurrentKeystoreNotFound
 	}
 	accountID := km.currentKeystore.accountName
-	addrManager := km.managedKeystores[accountID]
+	addrManager, found := km.managedKeystores[accountID]
+	if !found {
+		return nil, ErrCurrentKeystoreNotFound
+	}
 	managedAddresses, err := addrManager.nextAddresses(dbTransaction, checkfunc, internal, numAddresses, addressGapLimit, km.params, nRequiredDefault, addressClass)
 	if err != nil {
 		logging.CPrint(logging.ERROR, "new address failed",
@@ -1713,7 +1716,12 @@ func (km *KeystoreManager) GetManagedAddressByScriptHashInCurrent(scriptHash []b
 	}
 	encoded := scriptHashStruct.EncodeAddress()
 
-	mAddr, ok := km.managedKeystores[km.currentKeystore.accountName].addrs[encoded]
+	addrManager, found := km.managedKeystores[km.currentKeystore.accountName]
+	if !found {
+		// the cached keystore was dropped (failed reload after a failed NewAddress) while still selected
+		return nil, ErrCurrentKeystoreNotFound
+	}
+	mAddr, ok := addrManager.addrs[encoded]
 	if ok {
 		return mAddr, nil
 	}
